@@ -73,10 +73,16 @@ def check_C02(ctx):
             col = dict(col, **{r.choice(["g_end", "l_end", "g_begin"]): r.choice(days)})
             # ... in a process zone other than UTC and without --today: the bound is a calendar day, not an instant of the local zone
             if r.random() < 0.5: col["tz"] = r.choice([("Asia/Tokyo", 32400), ("America/New_York", -18000), ("Asia/Kolkata", 19800), ("Pacific/Kiritimati", 50400)])
+            # the same bound given before AND after the sub-command with different values: the one on the sub-command counts
+            if r.random() < 0.35:
+                if "g_begin" in col: col["l_begin"] = r.choice(days)
+                if "g_end" in col: col["l_end"] = r.choice(days)
+                if "l_end" in col and "g_end" not in col: col["g_end"] = r.choice(days)
+        if r.random() < 0.08: col = dict(col, no_database=True, **r.choice([dict(f_db="food.yaml"), dict(e_db="food.yaml"), {}]))     # --no-database wins over a book named by flag or environment
         cases.append(dict(files=f, cmd="reg", **col))
         cases.append(dict(files=f, cmd="reg", template="left-aligned", **col))
         cases.append(dict(files=f, cmd="reg", old=True, **col))
-        if days: cases.append(dict(files=f, cmd="summary", arg=r.choice(days).encode(), **{k2: v for k2, v in col.items() if k2 not in ("g_end", "l_end", "g_begin")}))
+        if days: cases.append(dict(files=f, cmd="summary", arg=r.choice(days).encode(), **{k2: v for k2, v in col.items() if k2 not in ("g_end", "l_end", "g_begin", "l_begin")}))
         d = log_days(w)
         rep_food = any(len({x for x, _ in es}) < len(es) for _, es in d)
         if rep_food or any(len(v) > 0 for v in w["meta"]["defs"].values()): ctx.nontriv(f["log.yaml"] + f["food.yaml"])
@@ -250,8 +256,15 @@ def check_C03(ctx):
     # random: deeper, shared prefixes, forks below chains, empty segments, single element with a book
     for k in range(ctx.scale(700, 10000)):
         w = simple_world(r, envelope=True, pathy=1.0)
-        f = files_of(r, w)
         x = r.choice(gen.element_names(w) or ["x"])
+        if k % 4 == 0:
+            # a food whose name is the category of another food, both carrying the element (amounts booked on an inner node of the tree)
+            g0 = gen.word(r, 3, 6)
+            w["book"] += [("heading", g0), ("entry", x, gen.number(r, True)), ("heading", g0 + "/sub"), ("entry", x, gen.number(r, True))]
+            for it_i, it in enumerate(list(w["log"])):
+                if it[0] == "heading":
+                    w["log"].insert(it_i + 1, ("entry", g0, gen.number(r, True))); w["log"].insert(it_i + 2, ("entry", g0 + "/sub", gen.number(r, True))); break
+        f = files_of(r, w)
         worlds_by_files[(f["log.yaml"], f["food.yaml"])] = w
         for m in modes:
             cases.append(dict(files=f, cmd="bal", **m, **NOCOLOR)); meta.append((None, None))
@@ -435,6 +448,7 @@ def check_C05(ctx):
                 v = r.random()
                 if v < 0.3: c.update(single_element="kcal", group_food=True)
                 elif v < 0.5: c["old"] = True
+                if r.random() < 0.1: c.update(old=True, **r.choice([dict(single_element="kcal"), dict(single_food="r"), dict(single_element="fat", group_food=True)]))
             if cmd == "bal" and r.random() < 0.4: c["single_element"] = "kcal"
             cases.append(c)
         ctx.nontriv(f["food.yaml"] + f["log.yaml"])
@@ -705,6 +719,8 @@ def check_C06(ctx):
                     keep = lambda i, sel=sel: ds[i] == sel
                     fdel = {"food.yaml": book, "log.yaml": gen.render_items(r, delete_days(items, keep), crlf=False, final_newline=True)}
                     c1 = dict(files=f, cmd="summary", arg=arg.encode(), f_today=d.strftime("%Y/%m/%d"), tz=tz, **NOCOLOR)
+                    if r.random() < 0.3:      # a global period that does not hold the date: `summary DATE` still selects exactly that day (its own period overrides the global one)
+                        c1[r.choice(["g_begin", "g_end"])] = (d + datetime.timedelta(days=r.choice([-9, 5, 40]))).strftime("%Y/%m/%d")
                     c2 = dict(files=fdel, cmd="reg", f_today=d.strftime("%Y/%m/%d"), tz=tz, **NOCOLOR)
                     cases.append(c1); pairs.append((len(cases) - 1, None, (sel, ds)))
     # a date format that carries a zone, in a process zone that has the same offset on those days and changes it nearby (daylight saving): the selection
@@ -785,12 +801,21 @@ def check_C07(ctx):
         day = r.choice(days) if days else "2021/01/20"
         base = dict(files=f, f_today="2021/02/01", **NOCOLOR)
         if k % 5 == 2: base["false_flags"] = ["no_database"]; ctx.tally("world", "--no-database=false given (the book is used all the same)")
+        split_levels = None
+        if k % 6 == 4 and len(days) >= 2:
+            # a period whose begin is given before the sub-command and whose end after it (where the sub-command has the flag): the same period for every report
+            b0, e0 = sorted(r.sample(days, 2)); base["g_begin"] = b0; split_levels = e0; day = b0; ctx.tally("world", "period with its two bounds at different levels")
         cs = dict(
             totals=dict(base, cmd="totals"), reg=dict(base, cmd="reg"), regsx=dict(base, cmd="reg", single_element=x, csv=True),
             regsxg=dict(base, cmd="reg", single_element=x, group_food=True), bal=dict(base, cmd="bal"), balsx=dict(base, cmd="bal", single_element=x),
             quantity=dict(base, cmd="quantity"), csvlog=dict(base, cmd="csv-log"), et=dict(base, cmd="element-total", arg=x.encode()),
             csvres=dict(base, cmd="csv-db-resolved"), summary=dict(base, cmd="summary", arg=day.encode()), unresolved=dict(base, cmd="unresolved"),
             csvdb=dict(base, cmd="csv-db"), stats=dict(base, cmd="stats"))
+        if split_levels is not None:
+            for kk, cc in cs.items():
+                if cc["cmd"] in ("reg", "bal", "csv-log"): cc["l_end"] = split_levels
+                elif cc["cmd"] in ("totals", "quantity"): cc["g_end"] = split_levels
+            for kk in ("summary", "stats", "et", "csvres", "csvdb", "unresolved"): cs[kk].pop("g_begin", None)     # (the relations on these are stated for the whole log)
         worlds.append((w, x, day, len(cases), list(cs.keys())))
         cases += list(cs.values())
         ctx.nontriv(f["food.yaml"] + f["log.yaml"] + x.encode())
@@ -951,13 +976,14 @@ def mutate(r, data):
         elif k < 0.6: b[i:i] = r.choice([b"\xff\xfe", b"\xc3", b"\xe2\x82", b"\xf0\x9f\x8d", b"\x00"])   # invalid UTF-8, NUL
         elif k < 0.75:                                                           # a bad / special number
             b[i:i] = (" " + r.choice(gen.BAD_NUMBERS + ["NaN", "Inf", "-Inf", "1e308", "1e-400", "0x1p-1074", "-0"]) + "\n").encode()
-        elif k < 0.85: b[i:i] = b"\n  " + bytes(r.choice(b"abc:- \t\"") for _ in range(r.randint(0, 5))) + b"\n"
+        elif k < 0.82: b[i:i] = b"\n  " + bytes(r.choice(b"abc:- \t\"") for _ in range(r.randint(0, 5))) + b"\n"
+        elif k < 0.87: b[i:i] = b"\n  " + r.choice([b"# Breakfast: #", b"#:#", b"# a:", b"#:", b"# : #", b"#", b"##", b"# x: y: z:", b"#\t:\t#", b"# \xc2\xa0:", b"#a:#b:#"]) + b"\n"   # notes of odd shapes
         else: b[i:i] = b[max(0, i - 20):i]                                       # duplication
     return bytes(b)
 
 def all_command_forms(r, f, x=b"kcal", day=b"2021/01/21"):
     base = dict(files=f, f_today="2021/02/01", **NOCOLOR)
-    forms = [dict(base, cmd="reg"), dict(base, cmd="reg", old=True), dict(base, cmd="reg", template="left-aligned"), dict(base, cmd="reg", single_element=x.decode("utf-8", "replace")),
+    forms = [dict(base, cmd="reg"), dict(base, cmd="reg", old=True), dict(base, cmd="reg", template=r.choice(["left-aligned", "left-aligned", "default", "compact", "Default", "x"])), dict(base, cmd="reg", single_element=x.decode("utf-8", "replace")),
              dict(base, cmd="reg", single_element=x.decode("utf-8", "replace"), group_food=True), dict(base, cmd="reg", single_food="a"), dict(base, cmd="reg", shorten=True, totals_only=True),
              dict(base, cmd="bal"), dict(base, cmd="bal", collapse=True), dict(base, cmd="bal", collapse_last=True), dict(base, cmd="bal", single_element=x.decode("utf-8", "replace")),
              dict(base, cmd="totals"), dict(base, cmd="quantity"), dict(base, cmd="quantity", desc=True), dict(base, cmd="unresolved"), dict(base, cmd="element-total", arg=x),
@@ -1120,6 +1146,8 @@ def check_C12(ctx):
         if r.random() < 0.2:      # members of one category that cancel across the two parts
             q = r.choice(["3", "1.5", "8"])
             dblocks[0].append(("entry", "drinks/hot/coffee", q)); dblocks[-1].append(("entry", "drinks/hot/tea", "-" + q))
+        if r.random() < 0.2:      # the same category spelled with another letter case in the two parts: two categories
+            dblocks[0].append(("entry", "Drinks/hot/coffee", "1")); dblocks[-1].append(("entry", "drinks/Hot/coffee", "2")); dblocks[-1].append(("entry", "Bread", "1"))
         if r.random() < 0.25:     # a food booked directly in one part and a food below it (its sub-category) in the other
             dblocks[0].append(("entry", "bread", r.choice(["2", "1.5"]))); dblocks[-1].append(("entry", "bread/white/slice", r.choice(["3", "1"])))
         blocks = [gen.render_items(r, b2, crlf=False, final_newline=True) for b2 in dblocks]
@@ -1219,6 +1247,13 @@ def check_C13(ctx):
         f, _, _ = odd_names_files(r)
         for cmd in ("csv-log", "csv-db", "csv-db-resolved"): oddc.append(dict(files=f, cmd=cmd, **NOCOLOR))
         ctx.nontriv(f["food.yaml"] + f["log.yaml"])
+    # names written with a dash, a colon or a quote at their end (`fat-: 3`, `"tea-": 1.5`, `wine/red -: 2`): the parser's normal form drops them - two spellings of one food are one row
+    for k in range(ctx.scale(6, 60)):
+        tails = ["-", " -", "--", ":", "\"", "-:"]
+        ents = [(nm + r.choice(tails + [""]), r.choice(["1", "2", "1.5"])) for nm in r.sample(["fat", "wine/red", "tea", "alcohol", "x y"], 3) for _ in range(2)]
+        logb = ("2021/03/01:\n" + "".join("  %s: %s\n" % e for e in ents)).encode()
+        bookb = "".join("%s:\n  %s: %s\n" % (r.choice(["rec", "rec-", "rec2"]), nm, q) for nm, q in ents[:3]).encode()
+        for cmd in ("csv-log", "csv-db", "csv-db-resolved"): oddc.append(dict(files={"food.yaml": bookb, "log.yaml": logb}, cmd=cmd, **NOCOLOR))
     ores = cli_diff(ctx, oddc, tag="C13:odd-names:")
     for c, i in zip(oddc, ores):
         if i["status"] != "ok": continue
@@ -1834,6 +1869,20 @@ def check_C16(ctx):
             c2 = dict(files=fe, cmd=cmd, **kw, **NOCOLOR)
             cases += [c1, c2]; expect += [None, None]; nd_pairs.append((len(cases) - 2, len(cases) - 1, variant))
         ctx.nontriv(f["log.yaml"] + f["food.yaml"])
+    # the same text as --maxdepth and as HR_MAXDEPTH means the same limit (also in the spellings of other bases that Go's integer syntax knows: outside the model)
+    dchain = "".join("r%d:\n  r%d: 1\n" % (j, j + 1) for j in range(9)).encode()      # 9 references: resolves under a limit of 10 and more, not under 8 or 9
+    dcases = []
+    for text in ("010", "0x10", "0b1010", "0o12", "12", "9", "0x8", "1_0", "+10", "0"):
+        for src in ("f_depth", "e_depth"):
+            dc = dict(files={"food.yaml": dchain, "log.yaml": b""}, cmd="csv-db-resolved", raw_argv=(["--maxdepth", text] if src == "f_depth" else []) + ["--no-color", "-d", "food.yaml", "-l", "log.yaml", "csv", "database-resolved"],
+                      raw_env=({"HR_MAXDEPTH": text} if src == "e_depth" else {}))
+            dcases.append(dc)
+    dres = impl_only(ctx, dcases)
+    for j in range(0, len(dcases), 2):
+        a, b2 = dres[j], dres[j + 1]
+        ctx.tally("depth_limit_text", "same" if (a["status"].split(":")[0], a["stdout"]) == (b2["status"].split(":")[0], b2["stdout"]) else "differs")
+        if (a["status"].split(":")[0], a["stdout"]) != (b2["status"].split(":")[0], b2["stdout"]):
+            ctx.violation("C16:depth-text-read-differently", "the limit %r given as --maxdepth gives %s, given as HR_MAXDEPTH %s" % (dcases[j]["raw_argv"][1], a["status"][:40], b2["status"][:40]), dict(kind="cli", case=dcases[j], impl=a, other_case=dcases[j + 1], other_impl=b2))
     ires = cli_diff(ctx, cases, tag="C16:")
     for c, e, i in zip(cases, expect, ires):
         if e is None: continue
@@ -1975,6 +2024,12 @@ def check_C18(ctx):
     for policy in ("stop", "drain"):
         reqs.append((dict(op="chan", policy=policy, nofile=True), dict(path="/nonexistent/verif-no-such-file")))
         meta.append((None, policy, None))
+    # the same Parser value used twice (drain policy: the first run ends with Done received and the producer gone): the second run is like the first
+    for d in datas[:7] + r.sample(datas[7:], min(len(datas) - 7, ctx.scale(20, 200))):
+        reqs.append((dict(op="chan", data=d, policy="drain", fault=None), dict(reuse=1, seed=11, jitter=1))); meta.append((d, "drain", None)); ctx.tally("schedule", "second use of one Parser")
+    # ParseFile on the empty name: a file that cannot be opened (not the current directory)
+    for policy in ("stop", "drain"):
+        reqs.append((dict(op="chan", policy=policy, nofile=True), dict(path=""))); meta.append((None, policy, None))
     # ParseFile on a named pipe (a journal piped into the program: readable, no size, not a regular file): the records of the bytes delivered, as from a stream
     for d in datas[:7] + r.sample(datas[7:], min(len(datas) - 7, ctx.scale(20, 200))):
         for policy in ("stop", "drain"):
